@@ -164,7 +164,7 @@ def _open_write(path, ext, t, force_overwrite):
 # ------------------------------------------------------------------------------------------------------------------
 def no_overwrite_case(ext, entry, kind, nf, pre, seed, d):
     """returns (status, detail): ok | not-raised | changed"""
-    work = os.path.join(d, "w")
+    work = os.path.join(d, "Work Dir.A")
     shutil.rmtree(work, ignore_errors=True)
     os.makedirs(work)
     path = os.path.join(work, "t." + ext)
@@ -211,7 +211,7 @@ def no_overwrite_case(ext, entry, kind, nf, pre, seed, d):
 
 def overwrite_case(ext, entry, kind, nf, seed, d):
     """returns (status, detail): ok | differs | raised"""
-    work, fresh = os.path.join(d, "w"), os.path.join(d, "fresh")
+    work, fresh = os.path.join(d, "Work Dir.A"), os.path.join(d, "Fresh Dir.B")
     for x in (work, fresh):
         shutil.rmtree(x, ignore_errors=True)
         os.makedirs(x)
@@ -252,7 +252,7 @@ READERS = ["load", "load_frame", "iterload", "open-read"]
 
 def read_case(ext, reader, nf, seed, d):
     """returns (status, detail): ok | changed ; exceptions of the reader are reported in detail['error']"""
-    work = os.path.join(d, "w")
+    work = os.path.join(d, "Work Dir.A")
     shutil.rmtree(work, ignore_errors=True)
     os.makedirs(work)
     path = os.path.join(work, "t." + ext)
